@@ -121,6 +121,24 @@ KFlags(full) == IF full THEN SUBSET FlagChars ELSE KFlagsSmall
 KWs(full) == IF full THEN 1..Len(WOpts) ELSE KWSmall
 KPs(full, verb) == IF verb = c_c THEN {1} ELSE IF full THEN 1..Len(POpts) ELSE KPSmall
 
+\* ---- the description of one call that the harness needs (failure signature, C sanity gate)
+PNumJ(n) == [t |-> n.t, neg |-> n.neg, d |-> n.d, x |-> n.x]
+PValJ(a) == [tag |-> a.tag, s |-> a.s, n |-> PNumJ(a.n)]
+ArgsJ(args) == [j \in 1..Len(args) |-> PValJ(args[j])]
+ConvNum(vb, a) == IF vb \in IntVerbs \cup UnsVerbs \/ vb = c_c THEN IntArg(a) ELSE ToNum(a, GoawkDialect)
+\* the (single) directive of a format, EmptyDir if there is not exactly one
+DirOf(fmt) == LET sc == Scan(fmt)
+                  ds == IF sc.err THEN <<>> ELSE SelectSeq(sc.items, LAMBDA it : it.k = "dir")
+              IN IF Len(ds) = 1 THEN ds[1].d ELSE EmptyDir
+\* family: "d" / "k"; d: the directive; argsj: the arguments as JSON; v: the converted (last) argument
+CallJ(family, fmt, d, args, chars, r, alts) ==
+  LET v == IF args = <<>> THEN VNull ELSE args[Len(args)]
+      cs == IF d.verb = c_s THEN ToStr(v, Cf6) ELSE <<>>
+  IN [fam |-> family, fmt |-> fmt, args |-> ArgsJ(args), chars |-> chars, verb |-> d.verb,
+      flags |-> FlagText(d.flags), wk |-> d.wk, pk |-> d.pk, ub |-> UbFlags(d),
+      cn |-> PNumJ(ConvNum(d.verb, v)), cs |-> (IF IsUnmStr(cs) THEN <<>> ELSE cs),
+      isnum |-> ArgIsNumber(v, GoawkDialect), alts |-> alts, err |-> r.err, out |-> r.out]
+
 \* ---- runs: several calls in one interpreter.  A run is a sequence of [f |-> format, a |-> arguments].
 St(str) == VStr(str)
 Inp(str) == VStrnum(str)
@@ -132,14 +150,14 @@ KindRun(f, verb) ==
   IN { << Call(f, <<num>>), Call(f, <<St(<<D6, D5>>)>>), Call(f, <<Inp(<<D6, D5>>)>>), Call(f, <<Inp(<<D6, D5, c_a, c_b, c_c>>)>>), Call(f, <<num>>) >>,
        << Call(f, <<Inp(<<SP, D6, D5, SP>>)>>), Call(f, <<St(<<c_a, c_b, c_c>>)>>), Call(f, <<Inp(<<c_a, c_b, c_c>>)>>), Call(f, <<num>>), Call(f, <<Inp(<<D6, DOT, D5, c_e, D1>>)>>) >> }
 Deco(verb) == { <<PCT, verb>>, <<PCT, verb, BAR>>, <<LBRK, PCT, D5, verb, RBRK>>, <<c_x, EQ, PCT, MINUS, D4, verb, BAR>> }
-KindRuns == UNION { KindRun(f, verb) : f \in Deco(verb), verb \in Verbs }
+KindRuns == UNION { UNION { KindRun(f, verb) : f \in Deco(verb) } : verb \in Verbs }
 \* two formats that differ only in the conversion letter; the first one is used first
 SibArgs(verb) == IF verb \in {c_c, c_s} THEN {N(65), St(Hello), Inp(<<D7, D2>>)} ELSE {N(3), N(0 - 3), VNum(Dec(TRUE, <<2, 5>>, 0 - 1)), Inp(<<MINUS, D7>>)}
 SibPairs == { <<c_c, c_s>>, <<c_s, c_c>>, <<c_u, c_d>>, <<c_d, c_u>>, <<c_i, c_d>>, <<c_d, c_i>>, <<c_u, c_i>>, <<c_i, c_u>>, <<c_x, C_X>>, <<c_e, C_E>>, <<c_g, c_f>> }
 SibFmt(shape, verb) == CASE shape = 1 -> <<PCT, verb>> [] shape = 2 -> <<PCT, verb, BAR>> [] shape = 3 -> <<LBRK, PCT, D5, verb, RBRK>>
                          [] shape = 4 -> <<PCT, verb, LF>> [] shape = 5 -> <<PCT, MINUS, D3, verb, PCT, PCT>>
-SibRuns == { << Call(SibFmt(sh, pr[1]), <<a1>>), Call(SibFmt(sh, pr[2]), <<a2>>), Call(SibFmt(sh, pr[1]), <<a2>>), Call(SibFmt(sh, pr[2]), <<a1>>) >> :
-               sh \in 1..5, pr \in SibPairs, a1 \in SibArgs(pr[1]), a2 \in SibArgs(pr[1]) }
+SibRun(sh, pr, a1, a2) == << Call(SibFmt(sh, pr[1]), <<a1>>), Call(SibFmt(sh, pr[2]), <<a2>>), Call(SibFmt(sh, pr[1]), <<a2>>), Call(SibFmt(sh, pr[2]), <<a1>>) >>
+SibRuns == UNION { { SibRun(sh, pr, a1, a2) : sh \in 1..5, a1 \in SibArgs(pr[1]), a2 \in SibArgs(pr[1]) } : pr \in SibPairs }
 \* a run ended by a run-time error: the calls before it have printed
 ErrRuns == { << Call(<<PCT, c_d>>, <<N(1)>>), Call(<<PCT, c_d, SP, PCT, c_d>>, <<N(1)>>), Call(<<PCT, c_d>>, <<N(2)>>) >>,
              << Call(<<PCT, c_c>>, <<Inp(<<D6, D5>>)>>), Call(<<PCT, c_z>>, <<N(1)>>) >> }
